@@ -91,6 +91,61 @@ def check_assembly(ctx, rule, exact=False):
                 "row r is the backward-Euler update (1 + 2k_r) u_r - k_r u_(r-1) - k_r u_(r+1) (outer row: (1 + k) u - k u_(r-1), no-flow)",
                 signature="stencil", row={str(k): nf.show(v, 120) for k, v in sorted(row.items())},
             )
+    # last: a reference of an unexpected shape ends the analysis here, after the structure rules above have reported
+    check_solved_is_assembly(ctx, rule, rows)
+
+
+def check_solved_is_assembly(ctx, rule, ref_rows):
+    """The system each simulate hands to the solver is the library's assembly for *some* coefficient vector k:
+    row by row (first two, generic, last two), one value k_r reproduces every coefficient of that row through the
+    formulas of _build_matrix.  (The structure rules above are statements about _build_matrix; this clause ties the
+    matrix actually solved - however it is stored: diags, banded, assembled in place - to them.)"""
+    from .reservoir import SIM_CLASSES
+
+    for cls in SIM_CLASSES:
+        it, f, parts = _step(ctx, cls)
+        seen = set()
+        for p, ev, A, b in parts:
+            rows = rows_of(A, b.length)
+            sig = tuple(sorted((lab, off, nf.key(v)) for lab, row in rows.items() for off, v in row.items()))
+            if sig in seen:
+                continue
+            seen.add(sig)
+            where = f"{f.file}:{ev.line}"
+            probs = []
+            for lab, ref in ref_rows.items():
+                row = {k: v for k, v in rows.get(lab, {}).items() if v}
+                ref = {k: nf.subst_sym(v, {"@N": b.length}) for k, v in ref.items() if v}
+                if set(row) != set(ref):
+                    probs.append(f"row {lab}: offsets {sorted(row)} instead of {sorted(ref)}")
+                    continue
+                katoms = {a for v in ref.values() for a in nf.atoms(v) if a[0] == "fn" and a[1] == "k"}
+                if len(katoms) > 1:
+                    raise AnalysisError("_build_matrix: a row depends on more than one coefficient")
+                if not katoms:
+                    if any(not nf.equal(row[k], ref[k]) for k in ref):
+                        probs.append(f"row {lab}: constant coefficients differ")
+                    continue
+                (ka,) = katoms
+                lin = {}
+                for off, v in ref.items():
+                    a0 = nf.subst(v, lambda a: {} if a == ka else None)
+                    b0 = nf.sub(nf.subst(v, lambda a: nf.ONE if a == ka else None), a0)
+                    if not nf.equal(v, nf.add(a0, nf.mul(b0, nf.atom_poly(ka)))):
+                        raise AnalysisError("_build_matrix: a coefficient is not linear in k")
+                    lin[off] = (a0, b0)
+                x = next((nf.div(nf.sub(row[off], a0), b0) for off, (a0, b0) in sorted(lin.items()) if b0), None)
+                if x is None:
+                    continue
+                bad = [off for off, (a0, b0) in sorted(lin.items()) if not nf.equal(row[off], nf.add(a0, nf.mul(b0, x)))]
+                if bad:
+                    probs.append(f"row {lab}: no single k_r gives the coefficients at offsets {bad}")
+            tag = _path_tag(p) if len(parts) > 1 else ""
+            ctx.check(
+                not probs, rule, RES + cls + ".simulate:solved matrix is the assembly", where,
+                "every row of the matrix handed to the solver is the corresponding row of _build_matrix for one coefficient k_r (interior: -k, 1 + 2k, -k; outer: -k, 1 + k)",
+                signature="solved matrix: " + "; ".join(probs)[:140], problems=probs,
+            )
 
 
 def _zero_increment(poly):
